@@ -53,6 +53,8 @@ def run(repo: Repo, tier: str) -> Report:
     from ..rules import r_truthy
     r_truthy(rep, repo, CLS, "_iteragg", [p_begin, p_end], "0 / 0.0 is a legitimate label of a numeric axis; a truth test treats it as 'not given' and falls back to the first / last step",
              afile=FILE, module=MOD)
+    from ..rules import r_position_truthy
+    r_position_truthy(rep, repo, fn, f"{CLS}._iteragg", afile=FILE)
     cfg = CFG(fn)
     rep.analysed = {"function": f"{FILE}:{CLS}._iteragg", "cfg_nodes": len(cfg.nodes)}
     N = Normaliser()
